@@ -269,6 +269,6 @@ def friendly_selection(db):
     rec = [exprtree.show(Tr.operand(t['args'][2])) for _, t in cr.calls() if t['f'].get('resolved') == COMPUTE_ROOT and len(t['args']) > 2]
     out.append(('vector-threshold-recursion', bool(rec) and all(x == 'a3' for x in rec),
                 f'recursive calls pass n_verifier_friendly_layers = {rec}', cr.loc()))
-    if k < 3:
-        out.append(('vector-flag-site', False, f'{k} hash_friendly_unfriendly call sites in compute_root_from_queries (3 confirmed by reading)', cr.loc()))
+    if k < 1:
+        out.append(('vector-flag-site', False, 'no hash_friendly_unfriendly call site in compute_root_from_queries', cr.loc()))
     return out
